@@ -69,6 +69,16 @@ class Rendered:
         return ''.join(self.parts)
 
 
+def _mark_macrobody(items):
+    for x in items:
+        x.in_macro_body = True
+        if isinstance(x, Cond):
+            for _, b in x.branches:
+                _mark_macrobody(b)
+            if x.els:
+                _mark_macrobody(x.els)
+
+
 def render(items, r=None):
     """assign source offsets to every item (stored on the item: .off, .line, and for Def .body_off)"""
     top = r is None
@@ -95,6 +105,10 @@ def render(items, r=None):
                 it.body_off = r.emit(it.body)
             it.end = r.pos
             r.emit('\n')
+            if it.body_items is not None:
+                sub = Rendered()
+                render(it.body_items, sub)
+                _mark_macrobody(it.body_items)
         elif isinstance(it, Undef):
             it.line = r.line
             it.off = r.emit('`undef ' + it.name)
@@ -230,7 +244,8 @@ def ref_eval(st, items, file, files=None, strip=False, expander=None, ignore_inc
             if x.name not in PREDEFINED:
                 st.table[x.name] = (True, {'body': x.body, 'file': file, 'body_off': getattr(x, 'body_off', None),
                                            'head_end': getattr(x, 'head_end', None), 'body_items': x.body_items,
-                                           'params': x.params, 'name': x.name, 'src': 'text'})
+                                           'params': x.params, 'name': x.name,
+                                           'src': 'macrobody' if getattr(x, 'in_macro_body', False) else 'text'})
             text = '`define ' + x.name
             if x.params is not None:
                 text += '(' + ','.join(p if d is None else '%s=%s' % (p, d) for p, d in x.params) + ')'
